@@ -578,7 +578,9 @@ MANIFEST_TEXT = {
                 "own font and size against its own column width (and at least 1); a group-start row budgets one heading row per page_by level "
                 "rendered there, and every row records the heading rows shown when it opens a page; the greedy assignment keeps each page's total "
                 "(rows of its data rows plus the page-top headings of its first row) within nrow minus the reservation unless the page is a single row; "
-                "a column header row is rendered only for a header the reservation counted.",
+                "a column header row is rendered only for a header the reservation counted; inside a page a page_by heading row is rendered only for a level at or "
+                "below a level whose value changes at that group start (what the budget counts); a heading takes at least the lines its text needs on the "
+                "table width.",
         "note": "Known finding: the auto-populated default column header is rendered but not reserved. The row counts of table-rendered footnote / "
                 "source (one row each, reserved when they have text) are compared through the render contract's presence clauses only.",
     },
@@ -630,15 +632,20 @@ MANIFEST_TEXT = {
                 "index r >= 1 satisfies S[r-1] == colour and the table's entry r is rtf(S[r-1]); '' and black give 0; the table is empty "
                 "iff no non-default colour is used. The 657-entry tables are checked exhaustively for key-set equality, injective master "
                 "index and rgb/rtf agreement.",
-        "note": "filter/sorted/index are assumed stdlib contracts (functions of the input list with their defining axioms). Which colour list "
-                "is current when an emitter asks (document context on the three encode paths) is named as not yet under contract.",
+        "note": "filter/sorted/index are assumed stdlib contracts (functions of the input list with their defining axioms). The document colour context "
+                "is set once and cleared once by UnifiedRTFEncoder.encode and by nothing else (frame scan over the package); Utils._get_color_index asks the "
+                "service for exactly the emitter's colour; encode_color_table generates the table from collect_document_colors(this document); the "
+                "collector reads every colour-bearing field of every component class (scan).",
     },
     "C13": {
         "text": "For frames of any height: a group cell is blanked exactly when its hierarchical key (null as a value) equals the previous row's, "
                 "shown cells keep their value, other columns are untouched (1, 2 and 3 levels); restore_page_context puts the original values back "
                 "on exactly the page-start rows and leaves everything else as suppressed; one-column sorting validation returns iff every run start "
-                "is a value not seen before and raises ValueError otherwise; fresh run starts imply contiguity (lemma).",
-        "note": "Relative to the modelled polars expression semantics (bounded audit planned); the page-start computation is named as not yet under contract.",
+                "is a value not seen before and raises ValueError otherwise; fresh run starts imply contiguity (lemma); enhance_group_by validates the order "
+                "for exactly the body's keys before it suppresses, and dispatches one key to the single-column and several keys to the hierarchical suppressor; "
+                "the key list reaches it in the user's order (validator contract); pages are recut on the suppressed frame and page starts are the first rows "
+                "of pages 2..P.",
+        "note": "Relative to the modelled polars expression semantics; validate_data_sorting is under contract for one and two levels.",
     },
     "C20": {
         "text": "Proved for all texts, sizes, dpi and both ways of naming a font: the returned width is the px/in/mm conversion of one Pillow "
@@ -685,8 +692,10 @@ MANIFEST_TEXT = {
         "text": "For the real bodies of the four export methods, on every exit path (normal, exception at encode, at conversion before/after it "
                 "produced output, malformed converter result, converter construction failure): intermediate files are written only under the two "
                 "temporary directories, both are removed, the target is touched only by the final move of the converter's result (write_rtf: by "
-                "one write of exactly the encoded string, after encoding completed), and nothing is moved on failure.",
-        "note": "pathlib/tempfile/shutil and the converter are assumed contracts; paths are uninterpreted terms with an 'under' relation; "
+                "one write of exactly the encoded string, after encoding completed), and nothing is moved on failure. LibreOfficeConverter._convert_single_file "
+                "returns a result only after the converter process exited with status 0 and the output file exists, and raises otherwise; rtf_encode returns "
+                "exactly the engine's string for this document.",
+        "note": "pathlib/tempfile/shutil/subprocess.run are assumed contracts; paths are uninterpreted terms with an 'under' relation; "
                 "crash points inside the library calls themselves (partial write_text, failing move) are outside the property's clause.",
     },
     "C19": {
